@@ -413,23 +413,15 @@ def nm(rng, p):
     return rng.random() < p * getattr(rng, 'nz', 1.0)
 
 
-def gen_history(rng, thorough, step):
-    """one history, generated ONLINE: `step(op)` runs the op on the real repository and returns its
-    outcome, so that the generator knows which classes exist (keeps forests deep although many
-    declarations are refused).  Returns (decls are fixed before) the op list and the real outcomes."""
-    decls = step.decls
+def gen_history(rng, thorough, decls):
+    """the activity in ONE namespace, generated ONLINE as a coroutine: it yields an op (without 'ns')
+    and is sent the real outcome, so that the generator knows which classes exist (keeps forests deep
+    although many declarations are refused).  `drive` interleaves several of these."""
     env = Env()
-    ops, outs = [], []
     names = list(CLASS_NAMES)
     rng.shuffle(names)
     n_classes = rng.randint(2, 9 if not thorough else 12)
     key = [0]
-
-    def emit(op):
-        out = step(op)
-        ops.append(op)
-        outs.append(out)
-        return out
 
     def forget(ln):
         dead = {ln}
@@ -447,21 +439,23 @@ def gen_history(rng, thorough, step):
         for _ in range(k):
             r = rng.random()
             if r < 0.30:
-                emit({'op': 'get', 'n': some_class(rng, env), 'f': gen_flags(rng, env)})
+                yield {'op': 'get', 'n': some_class(rng, env), 'f': gen_flags(rng, env)}
             elif r < 0.50:
                 cn = some_class(rng, env) if rng.random() < 0.8 else None
-                emit({'op': 'enumNames', 'cn': cn, 'deep': rng.choice([None, True, True, False])})
+                yield {'op': 'enumNames', 'cn': cn, 'deep': rng.choice([None, True, True, False])}
             elif r < 0.62:
                 cn = some_class(rng, env) if rng.random() < 0.7 else None
                 f = gen_flags(rng, env); f['pl'] = None
-                emit({'op': 'enumClasses', 'cn': cn, 'deep': rng.choice([None, True, False]), 'f': f})
-            elif r < 0.70:
-                emit({'op': 'supers', 'n': some_class(rng, env, 0.95)})
+                yield {'op': 'enumClasses', 'cn': cn, 'deep': rng.choice([None, True, False]), 'f': f}
+            elif r < 0.66:
+                yield {'op': 'supers', 'n': some_class(rng, env, 0.95)}
+            elif r < 0.72:
+                yield {'op': 'isSub', 'k': some_class(rng, env, 0.93), 'sup': some_class(rng, env, 0.9)}
             elif r < 0.88:
                 key[0] += 1
-                emit({'op': 'addInst', 'cls': some_class(rng, env, 0.93), 'key': key[0]})
+                yield {'op': 'addInst', 'cls': some_class(rng, env, 0.93), 'key': key[0]}
             else:
-                emit({'op': 'enumInsts', 'n': some_class(rng, env)})
+                yield {'op': 'enumInsts', 'n': some_class(rng, env)}
 
     for i in range(n_classes):
         name = names[i]
@@ -489,18 +483,18 @@ def gen_history(rng, thorough, step):
                 c['sup'] = rng.choice(['NoSuch', names[i + 1]])      # near miss: superclass that does not exist (yet)
             elif nm(rng, 0.03) and parent is None:
                 c['sup'] = ''                                        # near miss: empty superclass name
-            opname = 'create' if rng.random() < 0.6 else 'add'
-            out = emit({'op': opname, 'c': c})
+            opname = rng.choice(['create'] * 5 + ['add'] * 3 + ['mofCreate'] * 2)
+            out = yield {'op': opname, 'c': c}
             rng.nz = 1.0
             if 'ok' in out:
                 env.classes[name.lower()] = exposure
                 env.order.append(name.lower())
                 if rng.random() < 0.04:
-                    emit({'op': opname, 'c': dict(c, n=rc(rng, name))})     # duplicate creation
+                    yield {'op': opname, 'c': dict(c, n=rc(rng, name))}     # duplicate creation
                 break
             if rng.random() < 0.3:
                 break
-        queries(rng.choice([0, 0, 1, 1, 2, 3]))
+        yield from queries(rng.choice([0, 0, 1, 1, 2, 3]))
         r = rng.random()
         if r < 0.12 and env.order:
             # ModifyClass: new declaration for an existing class (mostly a leaf)
@@ -510,92 +504,125 @@ def gen_history(rng, thorough, step):
             c2, exp2 = gen_class(rng, decls, env, rc(rng, e['name']), e['sup'], e['assoc'])
             if nm(rng, 0.12):
                 c2['sup'] = rng.choice([None, 'NoSuch', '', c2['n'], some_class(rng, env)])
-            out = emit({'op': 'modify', 'c': c2})
+            out = yield {'op': 'modify', 'c': c2}
             if 'ok' in out:
                 exp2['name'] = c2['n']
                 env.classes[ln] = exp2
-            queries(1)
+            yield from queries(1)
         elif r < 0.19 and env.order:
             ln = rng.choice(env.order)
-            out = emit({'op': 'delete', 'n': rc(rng, env.classes[ln]['name']) if rng.random() < .9 else 'NoSuch'})
+            out = yield {'op': 'delete', 'n': rc(rng, env.classes[ln]['name']) if rng.random() < .9 else 'NoSuch'}
             if 'ok' in out:
                 forget(ln)
-            queries(2)
-    queries(rng.randint(1, 4))
+            yield from queries(2)
+    yield from queries(rng.randint(1, 4))
     # final sweep: every class fully expanded, subtree and instance enumerations
     for ln in list(env.order):
         nme = env.classes[ln]['name']
-        emit({'op': 'get', 'n': nme, 'f': {'lo': False, 'iq': True, 'ico': True, 'pl': None}})
+        yield {'op': 'get', 'n': nme, 'f': {'lo': False, 'iq': True, 'ico': True, 'pl': None}}
         if rng.random() < 0.5:
-            emit({'op': 'get', 'n': rc(rng, nme), 'f': {'lo': rng.choice([True, None]), 'iq': True, 'ico': True, 'pl': None}})
+            yield {'op': 'get', 'n': rc(rng, nme), 'f': {'lo': rng.choice([True, None]), 'iq': True, 'ico': True, 'pl': None}}
         if rng.random() < 0.3:
-            emit({'op': 'enumInsts', 'n': nme})
-    emit({'op': 'enumNames', 'cn': None, 'deep': True})
-    return ops, outs
+            yield {'op': 'enumInsts', 'n': nme}
+    yield {'op': 'enumNames', 'cn': None, 'deep': True}
 
 
 # --------------------------------------------------------------------------- running a history on the real code
 
+NS2 = 'Root/Other'          # second namespace of every history
+NS_TMP = 'root/tmp'          # added and removed again
+NS_BOGUS = 'root/nope'       # never exists
+
+
+def spell_ns(rng, ns):
+    """the same namespace in another spelling (case, leading/trailing slashes)"""
+    r = rng.random()
+    if r < 0.5:
+        return ns
+    if r < 0.65:
+        return ns.upper()
+    if r < 0.8:
+        return '/' + ns
+    if r < 0.9:
+        return ns.lower() + '/'
+    return '//' + rc(rng, ns) + '/'
+
+
 class Real:
-    def __init__(self, decls):
+    """the real repository: every op names its namespace"""
+
+    def __init__(self):
         import pywbem_mock
         self.conn = pywbem_mock.FakedWBEMConnection(default_namespace=NS)
-        self.conn.add_cimobjects([build_decl(d) for d in decls])
         self.tok = Tok()
-        self.decls = decls
-
-    def __call__(self, op):
-        return self.step(op)
-
-    def store(self):
-        return self.conn.cimrepository.get_class_store(NS)
 
     def step(self, op):
         import pywbem
         c = self.conn
         o = op['op']
+        ns = op['ns']
         obj = build_cls(op['c']) if 'c' in op else None     # generator errors must not look like outcomes
+        decl = build_decl(op['d']) if 'd' in op else None
         try:
+            if o == 'addNs':
+                c.add_namespace(ns)
+                return {'ok': None}
+            if o == 'removeNs':
+                c.remove_namespace(ns)
+                return {'ok': None}
+            if o == 'addDecl':
+                c.add_cimobjects(decl, namespace=ns)
+                return {'ok': None}
             if o == 'create':
-                c.CreateClass(obj)
+                c.CreateClass(obj, namespace=ns)
+                return {'ok': None}
+            if o == 'mofCreate':
+                from pywbem_mock._mockmofwbemconnection import _MockMOFWBEMConnection
+                _MockMOFWBEMConnection(c).CreateClass(obj, namespace=ns)
                 return {'ok': None}
             if o == 'add':
-                c.add_cimobjects(obj)
+                c.add_cimobjects(obj, namespace=ns)
                 return {'ok': None}
             if o == 'modify':
-                c.ModifyClass(obj)
+                c.ModifyClass(obj, namespace=ns)
                 return {'ok': None}
             if o == 'delete':
-                c.DeleteClass(op['n'])
+                c.DeleteClass(op['n'], namespace=ns)
                 return {'ok': None}
             if o == 'get':
                 f = op['f']
-                k = c.GetClass(op['n'], LocalOnly=f['lo'], IncludeQualifiers=f['iq'], IncludeClassOrigin=f['ico'],
-                               PropertyList=f['pl'])
-                full = c.GetClass(op['n'], LocalOnly=False, IncludeQualifiers=True, IncludeClassOrigin=True)
+                k = c.GetClass(op['n'], namespace=ns, LocalOnly=f['lo'], IncludeQualifiers=f['iq'],
+                               IncludeClassOrigin=f['ico'], PropertyList=f['pl'])
+                full = c.GetClass(op['n'], namespace=ns, LocalOnly=False, IncludeQualifiers=True,
+                                  IncludeClassOrigin=True)
                 return {'ok': {'cls': w_cls(k, self.tok)}, 'full': w_cls(full, self.tok)}
             if o == 'enumNames':
-                r = c.EnumerateClassNames(ClassName=op['cn'], DeepInheritance=op['deep'])
+                r = c.EnumerateClassNames(namespace=ns, ClassName=op['cn'], DeepInheritance=op['deep'])
                 return {'ok': {'names': [cps(n) for n in r]}}
             if o == 'enumClasses':
                 f = op['f']
-                r = c.EnumerateClasses(ClassName=op['cn'], DeepInheritance=op['deep'], LocalOnly=f['lo'],
-                                       IncludeQualifiers=f['iq'], IncludeClassOrigin=f['ico'])
-                each = [c.GetClass(k.classname, LocalOnly=f['lo'], IncludeQualifiers=f['iq'],
+                r = c.EnumerateClasses(namespace=ns, ClassName=op['cn'], DeepInheritance=op['deep'],
+                                       LocalOnly=f['lo'], IncludeQualifiers=f['iq'], IncludeClassOrigin=f['ico'])
+                each = [c.GetClass(k.classname, namespace=ns, LocalOnly=f['lo'], IncludeQualifiers=f['iq'],
                                    IncludeClassOrigin=f['ico']) for k in r]
                 return {'ok': {'classes': [w_cls(k, self.tok) for k in r]},
                         'each': [w_cls(k, self.tok) for k in each]}
             if o == 'supers':
-                r = c._mainprovider._get_superclass_names(op['n'], self.store())   # pylint: disable=protected-access
+                # pylint: disable=protected-access
+                r = c._mainprovider._get_superclass_names(op['n'], c.cimrepository.get_class_store(ns))
                 return {'ok': {'names': [cps(n) for n in r]}}
+            if o == 'isSub':
+                # pylint: disable=protected-access
+                r = c._mainprovider.is_subclass(op['k'], op['sup'], c.cimrepository.get_class_store(ns))
+                return {'ok': {'flag': bool(r)}}
             if o == 'addInst':
                 inst = pywbem.CIMInstance(op['cls'], properties={'k': pywbem.Uint32(op['key'])})
-                inst.path = pywbem.CIMInstanceName(op['cls'], keybindings={'k': pywbem.Uint32(op['key'])}, namespace=NS)
-                c.add_cimobjects(inst)
+                inst.path = pywbem.CIMInstanceName(op['cls'], keybindings={'k': pywbem.Uint32(op['key'])})
+                c.add_cimobjects(inst, namespace=ns)
                 return {'ok': None}
             if o == 'enumInsts':
-                r = c.EnumerateInstanceNames(op['n'])
-                r2 = c.EnumerateInstances(op['n'])
+                r = c.EnumerateInstanceNames(op['n'], namespace=ns)
+                r2 = c.EnumerateInstances(op['n'], namespace=ns)
                 a = [[cps(p.classname), int(p.keybindings['k'])] for p in r]
                 b = [[cps(i.path.classname), int(i.path.keybindings['k'])] for i in r2]
                 return {'ok': {'insts': a}, 'via_instances': b}
@@ -604,17 +631,25 @@ class Real:
         raise ValueError(op)
 
     def final(self):
-        names = [cps(k.classname) for k in self.store().iter_values(copy=False)]
-        insts = [[cps(i.path.classname), int(i.path.keybindings['k'])]
-                 for i in self.conn.cimrepository.get_instance_store(NS).iter_values(copy=False)]
-        return names, insts
+        """[{ns, classes, insts, decls}] in repository order"""
+        rep = self.conn.cimrepository
+        out = []
+        for ns in rep.namespaces:
+            out.append({'ns': cps(ns),
+                        'classes': [cps(k.classname) for k in rep.get_class_store(ns).iter_values(copy=False)],
+                        'insts': [[cps(i.path.classname), int(i.path.keybindings['k'])]
+                                  for i in rep.get_instance_store(ns).iter_values(copy=False)],
+                        'decls': [cps(q.name) for q in rep.get_qualifier_store(ns).iter_values(copy=False)]})
+        return out
 
 
 def wire_op(op, tok):
     o = dict(op)
     if 'c' in o:
         o['c'] = w_cls(build_cls(op['c']), tok)
-    for k in ('n', 'cn', 'cls'):
+    if 'd' in o:
+        o['d'] = w_decl(op['d'])
+    for k in ('n', 'cn', 'cls', 'ns', 'k', 'sup'):
         if k in o and o[k] is not None:
             o[k] = cps(o[k])
     if 'f' in o:
@@ -625,15 +660,58 @@ def wire_op(op, tok):
     return o
 
 
-def execute(decls, ops):
-    """-> (model request, real outs, final class names, final instances)"""
-    real = Real(decls)
+def drive(rng, thorough, real, two=True):
+    """one repository history: the class activity of two namespaces interleaved op by op, namespace
+    operations (add / duplicate add / remove of empty and non-empty namespaces) and operations sent to
+    a namespace that does not exist.  Returns (ops with 'ns', real outcomes)."""
+    ops, outs = [], []
+
+    def do(op):
+        out = real.step(op)
+        ops.append(op)
+        outs.append(out)
+        return out
+
+    streams = []
+    for ns in ([NS, NS2] if two else [NS]):
+        if ns != NS:
+            do({'op': 'addNs', 'ns': spell_ns(rng, ns)})
+        decls = gen_decls(rng)
+        for d in decls:
+            do({'op': 'addDecl', 'ns': spell_ns(rng, ns), 'd': d})
+        if rng.random() < 0.3:
+            do({'op': 'addDecl', 'ns': ns, 'd': dict(rng.choice(decls), n=rc(rng, decls[0]['n']))})   # duplicate
+        g = gen_history(rng, thorough and ns == NS, decls)
+        streams.append([ns, g, next(g)])
+    tmp = False
+    while streams:
+        st = streams[0] if len(streams) == 1 or rng.random() < 0.65 else streams[1]
+        ns, g, pending = st
+        r = rng.random()
+        if two and r < 0.02:
+            # the same request sent to a namespace that does not exist
+            do(dict(pending, ns=rng.choice([NS_BOGUS, NS_TMP if not tmp else NS_BOGUS, 'root'])))
+        elif two and r < 0.035:
+            do({'op': 'addNs', 'ns': spell_ns(rng, rng.choice([NS, NS2]))})                  # exists already
+        elif two and r < 0.05:
+            do({'op': 'removeNs', 'ns': spell_ns(rng, rng.choice([NS, NS2, NS_BOGUS]))})     # not empty / unknown
+        elif two and r < 0.065:
+            if 'ok' in do({'op': 'removeNs' if tmp else 'addNs', 'ns': spell_ns(rng, NS_TMP)}):
+                tmp = not tmp
+        out = do(dict(pending, ns=spell_ns(rng, ns)))
+        try:
+            st[2] = g.send(out)
+        except StopIteration:
+            streams.remove(st)
+    return ops, outs
+
+
+def execute(ops):
+    """replay a recorded op list -> (model request, real outs, final namespaces, token list)"""
+    real = Real()
     outs = [real.step(op) for op in ops]
-    # wire ops with the same token table (values of declared classes must map like the outputs)
     wops = [wire_op(op, real.tok) for op in ops]
-    names, insts = real.final()
-    return {'decls': [w_decl(d) for d in decls], 'ops': wops}, outs, names, insts, \
-        [[k[0], k[1], v] for k, v in real.tok.m.items()]
+    return {'default': cps(NS), 'ops': wops}, outs, real.final(), [[k[0], k[1], v] for k, v in real.tok.m.items()]
 
 
 AUX = ('full', 'each', 'via_instances')
